@@ -732,14 +732,19 @@ func runFamily(w *World, p map[string]int, prop string) {
 	}
 	nOps := 4 + t.Int(param(p, "ops", 40))
 	for i := 0; i < nOps && len(w.Violations) == 0; i++ {
-		weights := []int{10, 3, 3, 2, 2, 6}
+		weights := []int{10, 3, 3, 2, 2, 6, 1}
 		switch prop {
 		case "C09":
-			weights = []int{8, 3, 3, 1, 8, 6}
+			weights = []int{8, 3, 3, 1, 8, 6, 1}
 		case "C12":
-			weights = []int{8, 3, 2, 8, 1, 5}
+			weights = []int{8, 3, 2, 8, 1, 5, 2}
 		}
 		switch t.Weighted(weights) {
+		case 6:
+			// the node is restarted: pending transactions, deposits and issued
+			// addresses live in the store and must come back; the chain moves
+			// while the wallet is down and while it starts
+			restartMoving(w, inst, prop)
 		case 0:
 			w.MineOnTip(t, 60)
 		case 1:
@@ -758,7 +763,19 @@ func runFamily(w *World, p map[string]int, prop string) {
 					break
 				}
 				if tx := w.AnnounceLoose(t); tx != nil {
-					if _, ok := w.S.Quiesce(20000); ok && relevantToWallets(w, inst, tx) {
+					// the wallet accepts an unconfirmed transaction only when it can
+					// find every parent (on the chain or in its own pending set) at
+					// that moment: a parent that is unconfirmed and unknown to the
+					// wallet now makes the outcome open, even if it confirms later
+					parentsKnown := true
+					for _, in := range tx.TxIn {
+						if _, on := w.Node.OnBestChain(in.PreviousOutPoint.Hash); !on {
+							if _, exp := expect[in.PreviousOutPoint.Hash]; !exp {
+								parentsKnown = false
+							}
+						}
+					}
+					if _, ok := w.S.Quiesce(20000); ok && parentsKnown && relevantToWallets(w, inst, tx) {
 						expect[tx.TxHash()] = "announced while the wallet was idle and in sync"
 						w.Stat("probe.pending_expected")
 					}
